@@ -887,6 +887,8 @@ def run_mod_sequences(ctx, meshes, seqs, tag):
             if st['kind'] == 'modify':
                 o = outs[k_out] if k_out < len(outs) else {'error': r.get('error', 'no output')}
                 k_out += 1
+                if 'modify_error' in o:
+                    sq.setdefault('modify_errors', []).append((st['op'], o['modify_error']))
                 if 'snapshot' in o:
                     cur = snapshot_mesh(o['snapshot'], meshes[sq['mesh']])
                     cur_id = f"{sq['mesh']}s{k}"
@@ -1027,6 +1029,7 @@ def modify_stream(ctx, meshes, vols, corpus_mod=()):
     ctx.notes['in_place_modification_stream'] = {
         'sequences': len(seqs), 'operator_steps': n_steps, 'coq_cases': len(items),
         'failing_sequences': len(failures),
+        'modifications_that_raised (not judged)': sorted({f'{a}: {b}' for sq in seqs for a, b in sq.get('modify_errors', [])}),
         'volume_weighted_steps_differing_from_a_fresh_object (stale volume slot, property C19)': n_stale,
         "operator_steps_in_a_state_where_nodes_and_nodal_data['NODE']_differ (property C08)": n_incons}
     # shrink: [modifications..., failing op], then [.., earlier op, .., failing op]
